@@ -24,6 +24,8 @@ pub struct PacketConn<RW: Read + Write> {
     // the last packet sent was a maximal one, so the message must be terminated by one more
     // packet (an empty one if there is no more payload)
     continued: bool,
+    // an I/O error that occurred while a writer was being dropped; reported by the next flush
+    parked_error: Option<io::Error>,
 }
 
 impl<W: Read + Write> Write for PacketConn<W> {
@@ -43,6 +45,9 @@ impl<W: Read + Write> Write for PacketConn<W> {
     }
 
     fn flush(&mut self) -> io::Result<()> {
+        if let Some(e) = self.parked_error.take() {
+            return Err(e);
+        }
         self.maybe_end_packet()?;
         self.rw.flush()
     }
@@ -61,6 +66,7 @@ impl<RW: Read + Write> PacketConn<RW> {
             to_write: vec![0, 0, 0, 0],
             seq: 0,
             continued: false,
+            parked_error: None,
             rw,
         }
     }
@@ -86,6 +92,14 @@ impl<W: Read + Write> PacketConn<W> {
 
     pub fn end_packet(&mut self) -> io::Result<()> {
         self.maybe_end_packet()
+    }
+
+    /// Remember an error that cannot be returned where it happened (in a `Drop` impl), so that
+    /// the next `flush` reports it instead of the error being lost or turned into a panic.
+    pub(crate) fn park_error(&mut self, e: io::Error) {
+        if self.parked_error.is_none() {
+            self.parked_error = Some(e);
+        }
     }
 
     #[cfg(feature = "tls")]
